@@ -67,6 +67,21 @@ CLAIMED = {
               "completion (normalize_matrix*, adjust_matrix), TRCL on cells, implicit surfaces 1000·cell+surface, "
               "tilted tori and tilted cones are decided by the Lean spec monitor on probe decks, not by theorems."),
         design_ref='§8 C04'),
+    'C05': dict(
+        technique='Lean 4 proof (fuel induction over the universe hierarchy; counting argument over partitions) + model↔code correspondence of the cells pot_fill creates + Lean point monitor through the hierarchy',
+        text=("Proved in Lean for any hierarchy depth, fan-out and reuse of universes, any per-cell regions and any "
+              "frame maps (FILL transformation or TRCL) at each level: a cell generated by pot_fill contains a point iff "
+              "the point lies in the container and, seen through the container's frame map, in the filler leaf "
+              "(wrap_contains); what lies outside the container produces nothing (leaf_inside); if in every universe "
+              "every point lies in exactly one cell then every point of a filled cell lies in exactly one generated "
+              "cell (located_in_exactly_one); the provenance comment lists (filler, container) for every level and "
+              "material/density are the filler's (provenance). The model of pot_fill (which cells, order, idorigin, "
+              "material, density) is compared with the code's final cell dictionary; the Lean reference semantics "
+              "(MCNP.locate: universe frames, FILL transformation vs TRCL precedence, starred forms) is evaluated at "
+              "sample points against owners, provenance comment and composition of the written file under random "
+              "option sets. Not proved: that the frame map the code applies is the FILL transformation when present "
+              "and the TRCL otherwise, and cell_transform/pot_transform on trees (monitor + C04 theorems per surface)."),
+        design_ref='§8 C05'),
     'C06': dict(
         technique='Lean 4 proof (induction over the index ranges; field identities for the dual basis) + model↔code correspondence + Lean point monitor on lattice decks',
         text=("Proved in Lean for any number of ranges of any (also negative or one-element) extent: LatticeBounds.indices "
